@@ -532,7 +532,12 @@ func (w *dbworld) falseRows(c *fw.Ctx, a *acc, r *rand.Rand, rowCount, sitesPerC
 			case err == nil:
 				a.see("L3sql|false-row|" + cl0.kind + "|" + tag + "|ACCEPTED")
 				a.count("l3sql_false_row_accepted|" + cl0.kind + "|" + tag)
-				c.Violation("client.VerifyRow/false-row-accepted/"+cl0.kind+"/"+tag, "the client verified a row that is not the ledger's: "+shape, files)
+				sig := "client.VerifyRow/false-row-accepted/" + cl0.kind + "/" + tag
+				if tag == "altered:catalog-excerpt" {
+					// one cause whatever the claim: the catalog excerpt of the answer is not authenticated
+					sig = "client.VerifyRow/false-row-accepted/altered:catalog-excerpt"
+				}
+				c.Violation(sig, "the client verified a row that is not the ledger's: "+shape, files)
 			default:
 				a.see("L3sql|false-row|" + cl0.kind + "|" + tag + "|rejected")
 				a.count("l3sql_false_row_rejected")
@@ -574,6 +579,10 @@ func (w *dbworld) falseRows(c *fw.Ctx, a *acc, r *rand.Rand, rowCount, sitesPerC
 			}
 			tam(proto.Clone(honest))
 			tag := "altered:" + field
+			switch strings.TrimSuffix(field, "{}") {
+			case "DatabaseId", "TableId", "PKIDs", "ColNamesById", "ColIdsByName", "ColTypesById", "ColLenById", "MaxColId":
+				tag = "altered:catalog-excerpt"
+			}
 			if cl0.tamper != nil {
 				// the supporting forgery is what gets the claim accepted (see above); a further alteration
 				// that does not stop it is the same observation
